@@ -106,4 +106,4 @@ def lemma_pack_bools(n: int, bits: int) -> bool:
     return all(0 <= p <= 255 for p in packed)
 
 
-SPLITS = {'lemma_pack_bools': ('n', 0, 10)}
+SPLITS = {'lemma_pack_bools': ('n', 0, 10), 'lemma_escape_one_byte': ('q', 2)}
